@@ -17,7 +17,7 @@ struct Chk {
   Chk(Ctx &c_, const std::string &u) : c(c_), unit(u) {}
   void fail(const char *what, double x, const std::string &d) { c.st.violate(unit, fmt("QuadInvTimeMap %s at %.17g: %s", what, x, d.c_str()), {{"what", what}}); }
   void tau_point(double tau) {
-    ++c.st.comparisons;
+    ++c.st.comparisons; { uint64_t b; memcpy(&b, &tau, 8); if (c.st.distinct.insert(b * 0x9E3779B97F4A7C15ULL + 1).second) ++c.st.nontrivial; }
     const double T = m.toTime(tau);
     if (!(T > 0) || !std::isfinite(T)) { fail("positivity", tau, fmt("toTime = %.17g", T)); return; }
     { double e = (double)(fabsl((LD)T - Texact(tau)) / Texact(tau)); c.st.obs("toTime_rel_err", e); if (e > 1e-14) { fail("value", tau, fmt("toTime = %.17g, closed form %.17Lg", T, Texact(tau))); return; } }
@@ -36,7 +36,7 @@ struct Chk {
     if (!(e <= 1e-12)) { fail("inverse(tau)", tau, fmt("toTau(toTime(tau)) = %.17g", back)); return; }
   }
   void T_point(double T) {
-    ++c.st.comparisons;
+    ++c.st.comparisons; { uint64_t b; memcpy(&b, &T, 8); if (c.st.distinct.insert(b * 0x9E3779B97F4A7C15ULL + 2).second) ++c.st.nontrivial; }
     const double tau = m.toTau(T);
     if (!std::isfinite(tau)) { fail("toTau-finite", T, "not finite"); return; }
     const double T2 = m.toTime(tau); double e = std::fabs(T2 - T) / T; c.st.obs("toTime(toTau)_rel_err", e);
@@ -52,7 +52,7 @@ int main(int argc, char **argv) {
     const bool th = c.args.thorough();
     const long NEI = th ? (1L << 20) : (1L << 16), CH = 8192;
     long id = 0;
-    auto unit_begin = [&](const std::string &key, std::string &unit) { long my = id++; if (!c.mine(my)) return false; unit = str(my); if (!c.begin(unit)) return false; ++c.st.evaluations; if (!c.st.seen(key)) ++c.st.nontrivial; return true; };
+    auto unit_begin = [&](const std::string &key, std::string &unit) { long my = id++; if (!c.mine(my)) return false; unit = str(my); if (!c.begin(unit)) return false; ++c.st.evaluations; c.st.seen(key); return true; };
     // (1) mantissa/exponent lattice of tau and T
     for (int e = -60; e <= 19; ++e) {
       std::string unit; if (!unit_begin(fmt("lat/%d", e), unit)) continue; Chk k(c, unit);
